@@ -22,7 +22,7 @@ from flowmark.linewrapping.line_wrappers import (
     line_wrap_to_width,
 )
 from flowmark.linewrapping.protocols import LineWrapper
-from flowmark.linewrapping.tag_handling import TEMPLATE_TAG_PATTERN
+from flowmark.linewrapping.tag_handling import find_template_tags
 from flowmark.linewrapping.text_filling import DEFAULT_WRAP_WIDTH
 
 
@@ -813,12 +813,14 @@ class MarkdownNormalizer(Renderer):
 
         # A space between CJK and Latin text is for prose only: template tags and HTML comments
         # (which are raw text for Marko) come out exactly as written.
-        text = ""
+        pieces: list[str] = []
         pos = 0
-        for match in TEMPLATE_TAG_PATTERN.finditer(element.children):
-            text += re.sub(PANGU_RE, " ", element.children[pos : match.start()]) + match.group(0)
-            pos = match.end()
-        text += re.sub(PANGU_RE, " ", element.children[pos:])
+        for start, end in find_template_tags(element.children):
+            pieces.append(re.sub(PANGU_RE, " ", element.children[pos:start]))
+            pieces.append(element.children[start:end])
+            pos = end
+        pieces.append(re.sub(PANGU_RE, " ", element.children[pos:]))
+        text = "".join(pieces)
         if self._in_heading or self._in_table_cell:
             # Paragraph text has its runs of spaces collapsed by line wrapping. Headings and
             # table cells are not wrapped, so do the same here: how many spaces the source
